@@ -12,7 +12,7 @@ from fractions import Fraction
 from hypothesis import strategies as st
 
 from ..core import Info, Reject, expect_raises, require, subcheck
-from .. import fakes, tx
+from .. import fakes, gen, tx
 from ..gen import weighted
 
 
@@ -24,7 +24,7 @@ def _data():
 
 # =============================================================================== trn
 
-_TRN_TOK = tx.words(tx.TRN_DELIMS)
+_TRN_TOK = gen.weighted((9, tx.words(tx.TRN_DELIMS)), (1, tx.words_with_inner_space(tx.TRN_DELIMS)))
 _TRN_UTT_PLAIN = tx.words(tx.TRN_DELIMS, max_size=5)
 _TRN_UTT = st.one_of(
     _TRN_UTT_PLAIN, _TRN_UTT_PLAIN, _TRN_UTT_PLAIN,
